@@ -15,11 +15,13 @@ import (
 	"fmt"
 	"sort"
 	"strings"
+	"sync"
 
 	"github.com/ipfs/boxo/pinning/pinner/dsindex"
 	ds "github.com/ipfs/go-datastore"
 	dsq "github.com/ipfs/go-datastore/query"
 	dssync "github.com/ipfs/go-datastore/sync"
+	"github.com/multiformats/go-multibase"
 
 	"verif/vlib"
 )
@@ -27,8 +29,10 @@ import (
 func main() { vlib.Run("C24", run) }
 
 func run(c *vlib.Ctx) {
-	c.Rule("histories of 5-40 ops {Add,Delete,DeleteKey,DeleteAll,Search,HasValue,HasAny,ForEach(key|\"\"|early stop),empty key/value} on 1-3 sibling indexers (prefix-related namespace names) over one datastore; keys/values from a pool of 6-9 arbitrary byte strings incl. NUL, '/', 0xff, byte-prefix chains, 3-byte-aligned prefixes (base64url encodings are string prefixes), encoded-looking strings, path-join colliding splits; distinct = FNV of config+op list; non-trivial = a key-scoped query/DeleteKey ran while another present key's encoding had the queried key's encoding as a string prefix AND some delete removed >= 1 pair")
-	c.Cases("hist", c.N(2000, 12000), oneHistory)
+	c.Rule("histories of 5-40 ops {Add,Delete,DeleteKey,DeleteAll,Search,HasValue,HasAny,ForEach(key|\"\"|early stop),empty key/value} on 1-3 sibling indexers (prefix-related namespace names) over one datastore; keys/values from a pool of 6-9 arbitrary byte strings incl. NUL, '/', 0xff, byte-prefix chains, 3-byte-aligned prefixes (base64url encodings are string prefixes), encoded-looking strings, path-join colliding splits; distinct = FNV of config+op list; stratum `faults`: one indexer (+ untouched sibling) over a wrapper datastore that, for single calls, yields an error entry after N results of a Query or fails the N-th Delete/Put; every call either returns an error or agrees with the model (complete enumeration, right count, everything removed), after a failed mutating call the model is re-read from the backing datastore; non-trivial (`faults`) = an enumeration hit the injected error after >= 1 delivered result AND a DeleteKey/DeleteAll over >= 2 entries hit a failing Delete that was not the last; non-trivial (`hist`) = a key-scoped query/DeleteKey ran while another present key's encoding had the queried key's encoding as a string prefix AND some delete removed >= 1 pair")
+	c.Cases("hist", c.N(1700, 10000), oneHistory)
+	// datastore faults: see faultHistory
+	c.Cases("faults", c.N(600, 4000), faultHistory)
 }
 
 type pairSet map[string]map[string]bool
@@ -465,5 +469,376 @@ func checkRaw(k *vlib.Case, ctx context.Context, raw ds.Datastore, idx []*index,
 		if per[ix.name] != ix.count() {
 			k.Fail("raw-count", "one datastore entry per model pair (no residue, no loss)", fmt.Sprintf("%s: %d", ix.name, ix.count()), fmt.Sprint(per[ix.name]))
 		}
+	}
+}
+
+// ---------------------------------------------------------------- fault stratum
+
+var errInjected = errors.New("verif: injected datastore fault")
+
+// faultDS injects one fault into the calls made while it is armed: an error
+// entry after `after` results of every Query, or a failure of the Delete / Put
+// with index `after` (counted from arming).
+type faultDS struct {
+	ds.Datastore
+	mu     sync.Mutex
+	kind   string // "", "query", "delete", "put"
+	after  int
+	n      int
+	fired  bool
+	passed int // results delivered before the injected query error / deletes attempted
+}
+
+func (f *faultDS) arm(kind string, after int) {
+	f.mu.Lock()
+	f.kind, f.after, f.n, f.fired, f.passed = kind, after, 0, false, 0
+	f.mu.Unlock()
+}
+
+func (f *faultDS) Query(ctx context.Context, q dsq.Query) (dsq.Results, error) {
+	f.mu.Lock()
+	kind, after := f.kind, f.after
+	f.mu.Unlock()
+	res, err := f.Datastore.Query(ctx, q)
+	if err != nil || kind != "query" {
+		return res, err
+	}
+	ents, err := res.Rest()
+	if err != nil {
+		return nil, err
+	}
+	if after > len(ents) {
+		after = len(ents)
+	}
+	i := 0
+	done := false
+	return dsq.ResultsFromIterator(q, dsq.Iterator{
+		Next: func() (dsq.Result, bool) {
+			if done {
+				return dsq.Result{}, false
+			}
+			if i < after {
+				i++
+				return dsq.Result{Entry: ents[i-1]}, true
+			}
+			done = true
+			f.mu.Lock()
+			f.fired, f.passed = true, after
+			f.mu.Unlock()
+			return dsq.Result{Error: errInjected}, true
+		},
+		Close: func() error { return nil },
+	}), nil
+}
+
+func (f *faultDS) Delete(ctx context.Context, k ds.Key) error {
+	f.mu.Lock()
+	fail := f.kind == "delete" && f.n == f.after
+	if f.kind == "delete" {
+		f.n++
+	}
+	if fail {
+		f.fired = true
+	}
+	f.mu.Unlock()
+	if fail {
+		return errInjected
+	}
+	return f.Datastore.Delete(ctx, k)
+}
+
+func (f *faultDS) Put(ctx context.Context, k ds.Key, v []byte) error {
+	f.mu.Lock()
+	fail := f.kind == "put" && f.n == f.after
+	if f.kind == "put" {
+		f.n++
+	}
+	if fail {
+		f.fired = true
+	}
+	f.mu.Unlock()
+	if fail {
+		return errInjected
+	}
+	return f.Datastore.Put(ctx, k, v)
+}
+
+// readRaw rebuilds the pair set of an index from the backing datastore
+// (layout /<name>/<multibase key>/<multibase value>).
+func readRaw(ctx context.Context, raw ds.Datastore, name string) pairSet {
+	res, err := raw.Query(ctx, dsq.Query{KeysOnly: true})
+	if err != nil {
+		panic(err)
+	}
+	ents, _ := res.Rest()
+	out := pairSet{}
+	for _, e := range ents {
+		if !strings.HasPrefix(e.Key, name+"/") {
+			continue
+		}
+		parts := strings.Split(strings.TrimPrefix(e.Key, name+"/"), "/")
+		if len(parts) != 2 {
+			panic("unexpected index entry " + e.Key)
+		}
+		_, kb, e1 := multibase.Decode(parts[0])
+		_, vb, e2 := multibase.Decode(parts[1])
+		if e1 != nil || e2 != nil {
+			panic("undecodable index entry " + e.Key)
+		}
+		if out[string(kb)] == nil {
+			out[string(kb)] = map[string]bool{}
+		}
+		out[string(kb)][string(vb)] = true
+	}
+	return out
+}
+
+func subset(a, b pairSet) bool {
+	for k, vs := range a {
+		for v := range vs {
+			if !b[k][v] {
+				return false
+			}
+		}
+	}
+	return true
+}
+
+func faultHistory(k *vlib.Case) {
+	r := k.R
+	ctx := context.Background()
+	raw := ds.NewMapDatastore()
+	fds := &faultDS{Datastore: raw}
+	ix := &index{name: "/idx", x: dsindex.New(fds, ds.NewKey("/idx")), model: pairSet{}}
+	sib := &index{name: "/idxa", x: dsindex.New(raw, ds.NewKey("/idxa")), model: pairSet{}}
+	base := string(r.Bytes(3))
+	keys := []string{base, base + string(r.Bytes(3)), "a/b", string(r.Bytes(r.Range(1, 6)))}
+	vals := []string{"v1", "v2", base, "\x00", "a/b", string(r.Bytes(r.Range(1, 6)))}
+	for i, s := range keys {
+		k.Logf("key[%d]=%q", i, s)
+	}
+	for i, s := range vals {
+		k.Logf("val[%d]=%q", i, s)
+	}
+	add := func(x *index, key, val string) {
+		if err := x.x.Add(ctx, key, val); err != nil {
+			panic(err)
+		}
+		if x.model[key] == nil {
+			x.model[key] = map[string]bool{}
+		}
+		x.model[key][val] = true
+	}
+	npre := r.Range(4, 10)
+	for i := 0; i < npre; i++ {
+		ki, vi := r.Intn(len(keys)), r.Intn(len(vals))
+		k.Logf("setup Add key[%d] val[%d]", ki, vi)
+		add(ix, keys[ki], vals[vi])
+	}
+	add(sib, keys[0], vals[0])
+	add(sib, keys[1], vals[1])
+
+	sawEnumFault, sawDeleteFault := false, false
+	fullCheck := func() {
+		fds.arm("", 0)
+		checkForEach(k, ctx, ix, "")
+		for _, pk := range keys {
+			checkSearch(k, ctx, ix, pk)
+			checkHasAny(k, ctx, ix, pk)
+		}
+	}
+	// after a failed mutating call the index is whatever the datastore holds
+	resync := func(op string, allowedSuperset pairSet) {
+		got := readRaw(ctx, raw, ix.name)
+		if !subset(got, allowedSuperset) {
+			k.Fail("fault/failed-call-invented-pairs", "a failed "+op+" leaves a subset of what the call could legitimately have produced", fmt.Sprint(len(allowedSuperset)), fmt.Sprintf("%v", got))
+		}
+		ix.model = got
+	}
+	n := r.Range(6, 24)
+	for i := 0; i < n; i++ {
+		ki, vi := r.Intn(len(keys)), r.Intn(len(vals))
+		key, val := keys[ki], vals[vi]
+		fk, fa := "", 0
+		op := r.Intn(100)
+		faulty := r.Chance(3, 5)
+		switch {
+		case op < 14:
+			if faulty {
+				fk, fa = "put", 0
+			}
+			k.Logf("Add key[%d] val[%d] fault=%s@%d", ki, vi, fk, fa)
+			fds.arm(fk, fa)
+			err := ix.x.Add(ctx, key, val)
+			after := pairSet{}
+			for kk, vs := range ix.model {
+				after[kk] = map[string]bool{}
+				for v := range vs {
+					after[kk][v] = true
+				}
+			}
+			if after[key] == nil {
+				after[key] = map[string]bool{}
+			}
+			after[key][val] = true
+			if err != nil {
+				if fk == "" {
+					k.Fail("add-error", "Add succeeds without a fault", "nil", err.Error())
+				}
+				resync("Add", after)
+			} else {
+				ix.model = after
+			}
+			fullCheck()
+		case op < 24:
+			if faulty {
+				fk, fa = "delete", 0
+			}
+			k.Logf("Delete key[%d] val[%d] fault=%s@%d", ki, vi, fk, fa)
+			fds.arm(fk, fa)
+			err := ix.x.Delete(ctx, key, val)
+			if err != nil {
+				if fk == "" {
+					k.Fail("delete-error", "Delete succeeds without a fault", "nil", err.Error())
+				}
+				resync("Delete", ix.model)
+			} else if ix.model[key][val] {
+				delete(ix.model[key], val)
+				if len(ix.model[key]) == 0 {
+					delete(ix.model, key)
+				}
+			}
+			fullCheck()
+		case op < 52: // DeleteKey / DeleteAll
+			all := op >= 44
+			total := len(ix.model[key])
+			if all {
+				total = ix.count()
+			}
+			if faulty {
+				switch r.Intn(3) {
+				case 0:
+					fk, fa = "query", r.Intn(3)
+				default:
+					fk, fa = "delete", r.Intn(3)
+				}
+			}
+			name := fmt.Sprintf("DeleteKey key[%d]", ki)
+			if all {
+				name = "DeleteAll"
+			}
+			k.Logf("%s fault=%s@%d", name, fk, fa)
+			fds.arm(fk, fa)
+			var cnt int
+			var err error
+			if all {
+				cnt, err = ix.x.DeleteAll(ctx)
+			} else {
+				cnt, err = ix.x.DeleteKey(ctx, key)
+			}
+			fds.mu.Lock()
+			fired := fds.fired
+			fds.mu.Unlock()
+			if fired && fk == "delete" && total >= 2 && fa < total-1 {
+				sawDeleteFault = true
+			}
+			if err != nil {
+				if fk == "" {
+					k.Fail("deletekey-error", name+" succeeds without a fault", "nil", err.Error())
+				}
+				resync(name, ix.model)
+			} else {
+				if cnt != total {
+					k.Fail("deletekey-count", name+" that returned nil reports the number of pairs it had to remove", fmt.Sprint(total), fmt.Sprint(cnt))
+				}
+				if all {
+					ix.model = pairSet{}
+				} else {
+					delete(ix.model, key)
+				}
+			}
+			fullCheck() // nil => everything it should remove is gone
+			if k.Failed() {
+				ix.model = readRaw(ctx, raw, ix.name)
+			}
+		default: // queries
+			if faulty {
+				fk, fa = "query", r.Intn(3)
+			}
+			which := r.Intn(5)
+			qn := []string{"Search", "HasAny", "HasAny-all", "ForEach", "ForEach-all"}[which]
+			k.Logf("%s key[%d] fault=%s@%d", qn, ki, fk, fa)
+			fds.arm(fk, fa)
+			qk := key
+			if which == 2 || which == 4 {
+				qk = ""
+			}
+			var err error
+			var got []string
+			var want []string
+			switch which {
+			case 0:
+				var vs []string
+				vs, err = ix.x.Search(ctx, key)
+				got, want = sortedCopy(vs), ix.values(key)
+			case 1, 2:
+				var any bool
+				any, err = ix.x.HasAny(ctx, qk)
+				w := len(ix.model[key]) > 0
+				if qk == "" {
+					w = ix.count() > 0
+				}
+				got, want = []string{fmt.Sprint(any)}, []string{fmt.Sprint(w)}
+			default:
+				err = ix.x.ForEach(ctx, qk, func(gk, gv string) bool {
+					got = append(got, q(gk)+"=>"+q(gv))
+					return true
+				})
+				if qk == "" {
+					want = ix.allPairs()
+				} else {
+					for _, v := range ix.values(key) {
+						want = append(want, q(key)+"=>"+q(v))
+					}
+				}
+				sort.Strings(got)
+				sort.Strings(want)
+			}
+			fds.mu.Lock()
+			fired, passed := fds.fired, fds.passed
+			fds.mu.Unlock()
+			if fired && passed >= 1 && which >= 3 {
+				sawEnumFault = true
+			}
+			k.C.Count("queries", 1)
+			switch {
+			case err != nil && fk == "":
+				k.Fail("query-error", qn+" succeeds without a fault", "nil", err.Error())
+			case err != nil:
+				k.C.Count("query_errors_accepted_injected", 1)
+			case !same(want, got):
+				cls := "fault/" + qn + "-wrong-with-nil-error"
+				if fk == "" {
+					cls = "query-mismatch/" + qn
+				}
+				k.Fail(cls, qn+" either returns an error or the complete, exact model answer", fmt.Sprintf("%q", want), fmt.Sprintf("%q (nil error, injected fault fired=%v after %d results)", got, fired, passed))
+			}
+		}
+		if fk != "" {
+			fds.mu.Lock()
+			if fds.fired {
+				k.C.Count("faults_fired", 1)
+			}
+			fds.mu.Unlock()
+		}
+	}
+	fds.arm("", 0)
+	// the sibling index and nothing else was touched
+	checkForEach(k, ctx, sib, "")
+	if got := readRaw(ctx, raw, ix.name); !subset(got, ix.model) || !subset(ix.model, got) {
+		k.Fail("raw-count", "backing datastore holds exactly the model pairs", fmt.Sprint(ix.model), fmt.Sprint(got))
+	}
+	if sawEnumFault && sawDeleteFault {
+		k.Nontrivial()
 	}
 }
